@@ -9,7 +9,7 @@ func init() {
 	prop("C02", []string{"R3", "R4", "R5", "R6", "R7", "R8", "R42", "R40", "R31", "R35", "R59", "R57", "R67", "R74"},
 		"(i) OR accumulation is sound for every nesting: every store into the shared boolean index is monotone (R3); (ii) every built-in comparison kernel compares with the operator its table key names, cell on the left, column arguments read on the same row, all five types agreeing (R4); (iii) the negation shortcut is the logical complement including nulls, per column type (R5); (iv) kernels read the cell of row i at physical position index[i] and write bit i (R6, R42); (v) kept rows are a subsequence of the frame's rows in order, once each, foreign positions excluded (R7, R8); errors of column kernels reach Err (R31).",
 		"that orFrames' merge selects exactly the union and NotClause exactly the difference (value reasoning; they are in-order subsequences by R8); semantics of in/any_bits/all_bits; int<->float promotion; user predicates.")
-	prop("C03", []string{"R9", "R10", "R7", "R1s", "R6"},
+	prop("C03", []string{"R9", "R10", "R7", "R1s", "R6", "R78"},
 		"(i) the result is a permutation of the frame's rows, each whole: the sorter only exchanges elements of a private copy of the index (R9, R1s, R7); (ii) per type the order table encodes Reverse/NullLast exactly as stated and Compare returns the table entry matching the actual relation and nullness of the two cells (R10); comparisons receive physical positions (R6); Less is the lexicographic composition with null-vs-null ties falling through (R10c).",
 		"that quickSort/doPivot/heapSort/insertionSort arrange the index in non-decreasing order of Less: algorithm correctness over all n and tie structures; a mis-sorting change inside those four functions is NOT detected (it is still a permutation).")
 	prop("C04", []string{"R11", "R12", "R10", "R13", "R17", "R6", "R7", "R8", "R40", "R37", "R38", "R54", "R55", "R1g", "R25", "R72"},
